@@ -24,6 +24,7 @@ mod infoaux;
 mod integrity;
 mod keys;
 mod mem;
+mod memcapi;
 mod memdims;
 mod poolcli;
 mod repair;
@@ -50,6 +51,14 @@ fn main() {
     }
     if args[1] == "info-aux" {
         infoaux::main(&args[2..]);
+        return;
+    }
+    if args[1] == "c15-capi-child" {
+        memcapi::child_main(&args);
+        return;
+    }
+    if args[1] == "c15-mk" {
+        memcapi::mk_main(&args);
         return;
     }
     if args[1] == "c20r-child" {
@@ -134,6 +143,7 @@ fn main() {
         "c15" => mem::c15_cases(&mut rng, &tier, &mut out),
         "c15-dims" => memdims::c15_dims_cases(&mut rng, &tier, &mut out),
         "c15-blocks" => memdims::c15_blocks_cases(&mut rng, &tier, &mut out),
+        "c15-capi" => memcapi::c15_capi_cases(&mut rng, &tier, &mut out),
         "c10" => history::c10_cases(&mut rng, &tier, &mut out),
         "c10-order" => {
             history::c10_order_cases(&mut rng, &tier, &mut out);
